@@ -345,7 +345,9 @@ class WARCRecorder(object):
                 _('Rolling back file {filename} to length {length}.'),
                 filename=self._warc_filename, length=before_offset
             )
-            with open(self._warc_filename, mode='wb') as out_file:
+            # Open without truncating ('wb' would empty the file first and
+            # the truncate() below would then only zero-fill it).
+            with open(self._warc_filename, mode='r+b') as out_file:
                 out_file.truncate(before_offset)
 
             raise error
